@@ -11,7 +11,7 @@ import (
 func init() {
 	register(&propInfo{
 		ID:          "C19",
-		Explanation: "Path and value-origin analysis of the auth package. The permission checks only compare permissions for equality, so these path facts are the whole argument: (R19.1) in the per-field wrapper built by PermissionedProxy every delegation to the implementation is dominated by the true outcome of HasPerm(ctx from the call's first argument, PermissionedProxy's default-permissions parameter, the field's perm tag), and the false outcome returns an error value without delegating; (R19.2) HasPerm searches exactly the set attached to the context when one is attached (comma-ok true) and the defaults only otherwise, returns true only under element == required permission and false otherwise, and reads the same context key WithPerm writes; (R19.3) the HTTP handler reaches Next either with the original context on the token-less path or with WithPerm(ctx, allow) where allow is the verifier's own result on the verified path, and every 401 path (missing Bearer prefix, verifier error) never reaches Next; the token is taken from the Authorization header and otherwise from the token form value with the Bearer prefix added.",
+		Explanation: "Path and value-origin analysis of the auth package. The permission checks only compare permissions for equality, so these path facts are the whole argument: (R19.1) in the per-field wrapper built by PermissionedProxy every delegation to the implementation is dominated by the true outcome of HasPerm(ctx from the call's first argument, PermissionedProxy's default-permissions parameter, the field's perm tag), and the false outcome returns an error value without delegating; (R19.2) HasPerm searches exactly the set attached to the context when one is attached (comma-ok true) and the defaults only otherwise, returns true only under element == required permission and false otherwise, and reads the same context key WithPerm writes; (R19.3) the HTTP handler reaches Next either with the original context on the token-less path or with WithPerm(ctx, allow) where allow is the verifier's own result on the verified path, and every 401 path (missing Bearer prefix, verifier error) never reaches Next; the token is taken from the Authorization header and otherwise from the token form value with the Bearer prefix added. R19.1 also requires every reflect.Value.Set in the proxy constructor to install a reflect.MakeFunc wrapper.",
 		NotDecided:  "What a user-supplied Verify function returns; reflection details of field/method matching by name in PermissionedProxy (MethodByName) beyond the tag validation; HTTP semantics of FormValue.",
 		Assumptions: []string{"PermissionedProxy's second parameter is the default permission set and its first the valid set (exported signature)", "HasPerm, WithPerm, PermissionedProxy and Handler.ServeHTTP are resolved by their exported names (public API)"},
 		Run:         runC19,
